@@ -274,6 +274,9 @@ var checks = map[string]Check{
 				js = append(js, sq)
 			}
 			js = append(js, Job{Mode: "enum", Name: "c04_frames", Shards: 4})
+			// every handler outcome (result, status, unencodable result, panic, unknown route) through every filter pipe
+			// over raw/json/pb/thrift/http: the caller sees the handler's / the framework's status
+			js = append(js, sched("c12_live", "", 0, 1))
 			// a call cancelled by a disconnection: the status the caller reads at the moment of completion
 			// (from its own completion channel or after Done) is already the final non-OK status
 			cb := 1
@@ -317,7 +320,7 @@ var checks = map[string]Check{
 	},
 	"C12": {
 		Level:       "exploration",
-		Rule:        "bounded-exhaustive enumeration: every pipe over the registered filter ids up to length 4 (quick) / 8 (thorough, with a 1 MiB payload) plus md5 pipes of length 254, 255 and 256, crossed with payloads {empty, all 256 single bytes, 1 KiB compressible, 1 KiB incompressible}; every single-byte corruption (every offset x 255 values), truncation and extension of md5-packed payloads of length 0..32 (quick) / 96; unregistered ids at every position refused by Append and by Unpack of raw/json/pb frames; live sessions: a call sent through each of 6 pipes over 4 protocols, handler succeeding or failing, reply pipe read from the reply frame (all non-preemptive schedules)",
+		Rule:        "bounded-exhaustive enumeration: every pipe over the registered filter ids up to length 4 (quick) / 8 (thorough, with a 1 MiB payload) plus md5 pipes of length 254, 255 and 256, crossed with payloads {empty, all 256 single bytes, 1 KiB compressible, 1 KiB incompressible}; every single-byte corruption (every offset x 255 values), truncation and extension of md5-packed payloads of length 0..32 (quick) / 96; unregistered ids at every position refused by Append and by Unpack of raw/json/pb frames; live sessions: a call sent through each of 6 pipes over 5 protocols (http: gzip only), handler returning a result / an error status / a result the codec cannot encode / panicking / route unknown, reply pipe read from the reply frame and status checked (all non-preemptive schedules)",
 		Assumptions: []string{"registered filters in the harness process: gzip ('g', level 5) and md5 ('m')"},
 		Jobs: func(tier string) []Job {
 			l, c, big := "4", "32", "0"
@@ -377,7 +380,7 @@ var checks = map[string]Check{
 	},
 	"C09": {
 		Level:       "model_checking",
-		Rule:        "every plugin configuration of the alphabet {0-2 global-left, 0-1 global-right, group nesting depth 0-2 with/without group plugins, with/without a handler-level plugin, late append none/left/right, plugins implementing all stages or exactly one, no veto or one veto at every (plugin, pre-handler stage)} for calls and pushes is run on live sessions under every non-preemptive schedule; the recorded (plugin, stage, seq) trace is compared with a reference trace builder written from the documentation; a second route without group/handler plugins checks scoping; sibling registrations check chain isolation; calling-side stages and vetoes are enumerated separately",
+		Rule:        "every plugin configuration of the alphabet {0-2 global-left, 0-1 global-right, group nesting depth 0-2 with/without group plugins, with/without a handler-level plugin, late append none/left/right, plugins implementing all stages or exactly one, no veto or one veto at every (plugin, pre-handler stage)} for calls and pushes is run on live sessions under every non-preemptive schedule; the recorded (plugin, stage, seq) trace is compared with a reference trace builder written from the documentation; a second route without group/handler plugins checks scoping; sibling registrations check chain isolation; calling-side stages and vetoes are enumerated separately; a handler whose result cannot be encoded (error reply written instead) may skip the post-write stage but fires no stage twice",
 		Assumptions: baseAssumptions,
 		Jobs: func(tier string) []Job {
 			var js []Job
@@ -386,6 +389,10 @@ var checks = map[string]Check{
 				for _, l := range []string{"none", "left", "right"} {
 					js = append(js, sched("c09", "kind="+k+",late="+l, b, 2))
 				}
+			}
+			// the handler's result cannot be encoded: the reply is replaced by an error reply, reply stages still at most once
+			for _, l := range []string{"none", "left"} {
+				js = append(js, sched("c09", "kind=call,late="+l+",result=bad", b, 2))
 			}
 			// the calling side at one preemption: reply stages may not overtake the post-write stage
 			js = append(js, sched("c09_siblings", "", b, 1), sched("c09_caller", "", 1, 2))
